@@ -463,15 +463,21 @@ def run_harness_resilient(name, cases, timeout=3000, max_crashes=25, **kw):
     todo = list(cases)
     while todo:
         rc, obs, err = run_harness(name, todo, timeout=timeout, **kw)
+        fatal = None
         for o in obs:
-            obs_by_id[o["id"]] = o
-        if rc == 0 and len(obs) >= len(todo):
+            if o.get("fatal"):
+                fatal = o          # the executor's watchdog gave up on this case (hang / memory)
+            else:
+                obs_by_id[o["id"]] = o
+        if rc == 0 and len(obs) >= len(todo) and fatal is None:
             break
-        done = {o["id"] for o in obs}
+        done = {o["id"] for o in obs if not o.get("fatal")}
         idx = next((i for i, c in enumerate(todo) if c["id"] not in done), None)
         if idx is None:
             break
-        crashes.append((todo[idx], rc, err[-1500:]))
+        if fatal is not None and fatal["id"] == todo[idx]["id"]:
+            err = "fatal error: case exceeded the executor watchdog: " + fatal["fatal"]
+        crashes.append((todo[idx], rc, err[:1200] + ' ... ' + err[-300:]))
         todo = todo[idx + 1:]
         if len(crashes) >= max_crashes:
             break
